@@ -2,6 +2,7 @@ package main
 
 import (
 	"fmt"
+	"go/types"
 	"math/big"
 	"strings"
 
@@ -222,9 +223,6 @@ func runC10(p *Program, r *Report) {
 				}
 				xform = ev
 			case strings.HasSuffix(ev.Fn, ".PixOffset"):
-				if pixoff != nil {
-					extra = "more than one PixOffset per pixel"
-				}
 				pixoff = ev
 			case ev.Kind == "loop-invoke" && ev.Fn == "Set":
 				if set != nil {
@@ -277,58 +275,70 @@ func runC10(p *Program, r *Report) {
 			r.Check(good, "C10.S2", key+" Set", ws.Pos, "the only write is dst.Set(j+dx, i+dy, transformColor(src.At(j,i))) with (dx,dy) = dst.Bounds().Min − src.Bounds().Min", "generic arm does not write exactly dst.Set(j+dx, i+dy, colour): "+trunc(valKey(Tuple(ra)), 200))
 			continue
 		}
-		// fast paths: Pix stores
+		// fast paths: Pix stores. The destination type of this arm comes from the type switch.
+		dstType := ""
+		for _, c := range ws.Conds {
+			k := c.Key()
+			if strings.HasPrefix(k, "istype(dst,") {
+				dstType = strings.TrimSuffix(strings.TrimPrefix(k, "istype(dst,"), ")")
+			}
+		}
 		bpp := 0
 		layout := map[int64][2]interface{}{}
-		switch {
-		case pixoff != nil && strings.Contains(pixoff.Fn, "image.RGBA64"):
+		switch dstType {
+		case "*image.RGBA64":
 			bpp = 8
 			for c, ch := range []string{"R", "G", "B", "A"} {
 				layout[int64(2*c)] = [2]interface{}{ch, 8}
 				layout[int64(2*c+1)] = [2]interface{}{ch, 0}
 			}
-		case pixoff != nil && strings.Contains(pixoff.Fn, "image.RGBA)"):
+		case "*image.RGBA":
 			bpp = 4
 			for c, ch := range []string{"R", "G", "B", "A"} {
 				layout[int64(c)] = [2]interface{}{ch, 8}
 			}
 		default:
-			r.Undecide("C10.S2", key+" stores", ws.Pos, "fast path for a destination type that is not in the layout table (RGBA64, RGBA)")
+			r.Undecide("C10.S2", key+" stores", ws.Pos, "fast path for destination type "+dstType+", which is not in the layout table (RGBA64, RGBA)")
 			continue
 		}
-		pa := realArgs(*pixoff)
-		offOK := len(pa) == 3 && valKey(pa[0]) == "dst"
-		if offOK {
-			x, _ := pa[1].(*Form)
-			y, _ := pa[2].(*Form)
-			offOK = x != nil && y != nil && x.Equal(j.Add(dx)) && y.Equal(i.Add(dy))
+		imgT := imagePtrType(p, strings.TrimPrefix(dstType, "*image."))
+		want, okW := e.pixOffsetForm(ws.ParentSt, &Opaque{Key: "dst"}, imgT, int64(bpp), j.Add(dx), i.Add(dy))
+		if !okW {
+			r.Undecide("C10.S2", key+" offset", ws.Pos, "destination image layout not extractable")
+			continue
 		}
-		r.Check(offOK, "C10.S2", key+" offset", ws.Pos, "offset = dst.PixOffset(j+dx, i+dy) with (dx,dy) = dst.Bounds().Min − src.Bounds().Min", "destination offset is PixOffset"+trunc(valKey(Tuple(pa)), 200)+"; required (dst, j + dst.Min.X − src.Min.X, i + dst.Min.Y − src.Min.Y)")
 		seen := map[int64]bool{}
 		stOK, stWhy := len(cf.Stores) == bpp, ""
 		if !stOK {
 			stWhy = fmt.Sprintf("%d byte stores per pixel, the destination format has %d bytes per pixel", len(cf.Stores), bpp)
 		}
+		offOK, offWhy := true, ""
 		valOK, valWhy := true, ""
 		for _, sv := range cf.Stores {
 			ptr := sv.Recv.(*Ptr)
 			idx, _ := sv.Args[3].(*Form)
-			m, off, ok := splitOffset(e, idx)
-			if !ok || ptr.Base == nil || !strings.HasSuffix(ptr.Base.Key, ".Pix(dst)") && !strings.HasPrefix(ptr.Base.Key, "dst.Pix") || off.Key != appOf(e, pixoff.Res).Key {
-				stOK, stWhy = false, "store to "+trunc(ptr.Key(), 160)+" is not dst.Pix[offset + k]"
+			if ptr.Base == nil || ptr.Base.Key != "dst.Pix" {
+				stOK, stWhy = false, "store to "+trunc(ptr.Key(), 160)+" is not a store into dst.Pix"
+				continue
+			}
+			m, isC := idx.Sub(want).ConstInt()
+			if !isC {
+				offOK, offWhy = false, "a pixel byte is stored at index "+trunc(idx.String(), 200)+"; required dst.PixOffset(j + dst.Min.X − src.Min.X, i + dst.Min.Y − src.Min.Y) + k = "+trunc(want.String(), 200)+" + k"
 				continue
 			}
 			if seen[m] || m < 0 || m >= int64(bpp) {
 				stOK, stWhy = false, fmt.Sprintf("byte %d of the pixel is written twice or lies outside the pixel", m)
+				continue
 			}
 			seen[m] = true
-			want := layout[m]
+			wantB := layout[m]
 			atom, lo, ok := byteOf(e, sv.Args[4])
-			if !ok || atom != chField(want[0].(string)) || lo != want[1].(int) {
+			if !ok || atom != chField(wantB[0].(string)) || lo != wantB[1].(int) {
 				valOK = false
-				valWhy = fmt.Sprintf("byte %d of the pixel receives %s; the %d-byte layout requires bits %d..%d of channel %s of the transformed colour", m, trunc(valKey(sv.Args[4]), 120), bpp, want[1].(int)+7, want[1].(int), want[0].(string))
+				valWhy = fmt.Sprintf("byte %d of the pixel receives %s; the %d-byte layout requires bits %d..%d of channel %s of the transformed colour", m, trunc(valKey(sv.Args[4]), 120), bpp, wantB[1].(int)+7, wantB[1].(int), wantB[0].(string))
 			}
 		}
+		r.Check(offOK, "C10.S2", key+" offset", ws.Pos, "every byte goes to dst.Pix[(i+dy−Rect.Min.Y)·Stride + (j+dx−Rect.Min.X)·bpp + k] with (dx,dy) = dst.Bounds().Min − src.Bounds().Min (= PixOffset(j+dx, i+dy) + k, however the offset is computed)", offWhy)
 		r.Check(stOK, "C10.S2", key+" stores", ws.Pos, fmt.Sprintf("exactly the %d bytes dst.Pix[offset+0..%d] of the pixel are written, nothing else", bpp, bpp-1), stWhy)
 		r.Check(valOK, "C10.S3", key+" layout", ws.Pos, "byte layout equals the destination colour model's conversion of the color.RGBA64 (high/low bytes per channel)", valWhy)
 	}
@@ -623,42 +633,49 @@ func checkConvertArm(p *Program, r *Report, key, arm, target string, ws workerSi
 	}
 	switch arm + "→" + target {
 	case "*image.RGBA64→*image.RGBA", "*image.RGBA→*image.RGBA64":
-		inOff, outOff := find(arm[1:]+").PixOffset"), find(target[1:]+").PixOffset")
-		good := inOff != nil && outOff != nil && len(cf.Calls) == 2
-		why := "expected exactly one PixOffset on the input and one on the output per pixel"
-		if good {
-			ia, oa := realArgs(*inOff), realArgs(*outOff)
-			good = valKey(ia[0]) == "img" && isJI(ia, 1) && valKey(oa[0]) == out && isJI(oa, 1)
-			why = "both offsets must be PixOffset(j, i) of the respective image for the same (j, i)"
-		}
-		nOut := 4
+		nOut, inBpp := 4, int64(8)
 		srcOf := func(m int64) int64 { return 2 * m } // RGBA64→RGBA: out[k] = in[2k]
 		if target == "*image.RGBA64" {
-			nOut = 8
+			nOut, inBpp = 8, 4
 			srcOf = func(m int64) int64 { return m / 2 } // RGBA→RGBA64: out[2k] = out[2k+1] = in[k]
+		}
+		good, why := true, ""
+		wantOut, ok1 := e.pixOffsetForm(ws.ParentSt, newEv.Res, imagePtrType(p, strings.TrimPrefix(target, "*image.")), int64(nOut), j, i)
+		wantIn, ok2 := e.pixOffsetForm(ws.ParentSt, &Opaque{Key: "img"}, imagePtrType(p, strings.TrimPrefix(arm, "*image.")), inBpp, j, i)
+		if !ok1 || !ok2 {
+			good, why = false, "image layouts not extractable"
+		}
+		for _, ev := range cf.Calls {
+			if !strings.HasSuffix(ev.Fn, ".PixOffset") {
+				good, why = false, "unexpected call "+ev.Fn+" in the byte-copy worker"
+			}
 		}
 		if good {
 			seen := map[int64]bool{}
 			if len(cf.Stores) != nOut {
 				good, why = false, fmt.Sprintf("%d byte stores per pixel, expected %d", len(cf.Stores), nOut)
 			}
+			outPix := ""
+			if op, ok := newEv.Res.(*Ptr); ok && op.Cell != nil {
+				outPix = fmt.Sprintf("newimg#%d.Pix", op.Cell.ID)
+			}
 			for _, sv := range cf.Stores {
 				ptr := sv.Recv.(*Ptr)
 				idx, _ := sv.Args[3].(*Form)
-				m, off, ok := splitOffset(e, idx)
-				if !ok || ptr.Base == nil || !strings.HasSuffix(ptr.Base.Key, ".Pix") || off.Key != appOf(e, outOff.Res).Key || seen[m] || m < 0 || m >= int64(nOut) {
-					good, why = false, "store to "+trunc(ptr.Key(), 120)+" is not output.Pix[outputOffset + k] with each k once"
+				m, isC := idx.Sub(wantOut).ConstInt()
+				if ptr.Base == nil || ptr.Base.Key != outPix || !isC || seen[m] || m < 0 || m >= int64(nOut) {
+					good, why = false, "store to "+trunc(ptr.Key(), 160)+" is not output.Pix[PixOffset(j,i) + k] with each k once"
 					break
 				}
 				seen[m] = true
 				va := appOf(e, sv.Args[4])
-				if va == nil || va.Fn != "index" || !strings.HasPrefix(valKey(va.Args[0]), "img.Pix") {
+				if va == nil || va.Fn != "index" || valKey(va.Args[0]) != "img.Pix" {
 					good, why = false, fmt.Sprintf("output byte %d receives %s, not a byte of the input pixel", m, trunc(valKey(sv.Args[4]), 100))
 					break
 				}
-				sm, soff, ok := splitOffset(e, va.Args[1].(*Form))
-				if !ok || soff.Key != appOf(e, inOff.Res).Key || sm != srcOf(m) {
-					good, why = false, fmt.Sprintf("output byte %d is copied from input byte %d of the pixel; the colour-model conversion requires input byte %d", m, sm, srcOf(m))
+				sm, isC2 := va.Args[1].(*Form).Sub(wantIn).ConstInt()
+				if !isC2 || sm != srcOf(m) {
+					good, why = false, fmt.Sprintf("output byte %d is copied from input index %s; the colour-model conversion requires input.Pix[PixOffset(j,i) + %d]", m, trunc(valKey(va.Args[1]), 120), srcOf(m))
 					break
 				}
 			}
@@ -667,7 +684,7 @@ func checkConvertArm(p *Program, r *Report, key, arm, target string, ws workerSi
 		if target == "*image.RGBA64" {
 			want = "out[2k] = out[2k+1] = in[k] (v·0x101)"
 		}
-		r.Check(good, rule, key, ws.Pos, want+", offsets from PixOffset(j,i) of each image", why)
+		r.Check(good, rule, key, ws.Pos, want+", both at PixOffset(j,i) of the respective image (however the offsets are computed)", why)
 	case "*image.NRGBA→*image.RGBA64", "*image.YCbCr→*image.RGBA64":
 		at := find("At")
 		rgba := find(").RGBA")
@@ -752,4 +769,17 @@ func low16Of(e *Engine, v, src Val) bool {
 		}
 	}
 	return true
+}
+
+// imagePtrType returns the type *image.<name>.
+func imagePtrType(p *Program, name string) types.Type {
+	pk := p.ByPath["image"]
+	if pk == nil {
+		return nil
+	}
+	obj := pk.Types.Scope().Lookup(name)
+	if obj == nil {
+		return nil
+	}
+	return types.NewPointer(obj.Type())
 }
